@@ -124,6 +124,11 @@ func (r *verifyRun) mint(kind string, expIn time.Duration, jti string) *vtok {
 		cl["sub"] = "root"
 		t.valid = false
 	}
+	if r.n%3 == 1 && kind != "garbage" {
+		// private claims whose names differ from registered ones in case only, written after them, with other values
+		far := time.Now().Add(365 * 24 * time.Hour).Unix()
+		cl["__tail"] = [][2]interface{}{{"Exp", far}, {"EXP", far}, {"Iat", far}, {"Aud", "cid"}, {"Iss", issuerURL}, {"Jti", "other"}}
+	}
 	t.raw = stdToken(k, cl)
 	if donor != nil && kind == "samesig" {
 		mine, theirs := strings.Split(t.raw, "."), strings.Split(donor.raw, ".")
@@ -366,11 +371,15 @@ func familyLimiter(t *testing.T) {
 			r := newVerifyRun(R)
 			gapExact := time.Duration(int64(time.Second) / int64(R))
 			var admitted []int64 // instants of admitted verifications
+			var refusedToks []*vtok // tokens whose verification was refused for lack of budget
 			arrive := func() string {
 				tk := r.mint("valid", time.Hour, "")
 				res := r.verify(tk, true)
 				if res == "accept" {
 					admitted = append(admitted, nowNs())
+				}
+				if res == "refuse" && len(refusedToks) < 64 {
+					refusedToks = append(refusedToks, tk)
 				}
 				if res == "reject" {
 					T.oracle("C19", "a correctly signed fresh token was rejected for a reason other than the rate limit", M{"id": tk.id}, r.replay())
@@ -505,6 +514,21 @@ func familyLimiter(t *testing.T) {
 				}
 			}
 			T.statN("limiter.admitted", len(admitted))
+			// clients that were refused come back with the same token once there is budget again: a refusal has left no trace
+			if len(refusedToks) > 0 {
+				vsleep(2 * time.Second)
+				n := len(refusedToks)
+				if n > R {
+					n = R
+				}
+				for _, tk := range refusedToks[:n] {
+					if res := r.verify(tk, true); res == "reject" {
+						T.oracle("C19", "a token whose verification was refused for lack of budget is rejected when presented again with budget available", M{"id": tk.id, "R": R}, r.replay())
+						break
+					}
+				}
+				T.statN("limiter.retried-after-refusal", n)
+			}
 		}
 		// traffic on an already authenticated session is not subject to the limit
 		for _, R := range []int{10, 25} {
